@@ -607,7 +607,13 @@ def build_catalogue():
 
     # ---- Grid methods
     def gpts(n, s):
-        return np.column_stack([10. + unif(n, s) * 3, -3. + unif(n, s, 7) * 3])
+        p = np.column_stack([10. + unif(n, s) * 3, -3. + unif(n, s, 7) * 3])
+        # special positions of the 6x6 value grid (extent [10,13] x [-3,0]): exactly on the right / top edge,
+        # the two corners, just outside
+        special = [(13.0, -1.0), (11.0, 0.0), (10.0, -3.0), (13.0, 0.0), (14.0, 1.0), (13.0 - 1e-11, -2.0)]
+        for i, xy in enumerate(special[:max(0, min(len(special), n - 2))]):
+            p[i] = xy
+        return p
 
     add("grid.Grid.coord2cell", lambda n, s, lay: {"self": Fixed(make_valgrid("c64", s)), "xycoords": A(gpts(n, s), nan_ok=False)},
         lambda a: a["self"].coord2cell(a["xycoords"]))
